@@ -19,10 +19,11 @@ CRYSTAL = [[26, 0, 0], [29, 0, 0], [13, 0, 0], [6, 0, 0]]
 
 
 def gen_mutation(rng, V, tbl, pred, allow_known):
-    props = pred.tprops.get(tbl, set())
+    props = set(M.GROUPS9) if tbl == "public" else pred.tprops.get(tbl, set())
     has_mass = "mass" in props
-    choices = [("_mass", V.atom(rng, "iso" if has_mass and rng.random() < 0.4 else "el")),
-               ("_density", V.atom(rng, "el")), ("_mass_unc", V.atom(rng, "el")),
+    hot = [rng.choice(E.HOT_Z), 0, 0]
+    choices = [("_mass", hot if rng.random() < 0.4 else V.atom(rng, "iso" if has_mass and rng.random() < 0.4 else "el")),
+               ("_density", hot if rng.random() < 0.4 else V.atom(rng, "el")), ("_mass_unc", V.atom(rng, "el")),
                ("_abundance", V.atom(rng, "iso") if has_mass else [1, 2, 0]),
                ("_abundance_unc", V.atom(rng, "iso") if has_mass else [1, 3, 0]),
                ("covalent_radius", V.atom(rng, "el")), ("covalent_radius_uncertainty", V.atom(rng, "el")),
@@ -97,6 +98,7 @@ def gen(seed, V, tier, index, bias=None):
            "retry": {t: rng.random() < 0.5 for t in tables},
            "public_late": rng.random() < 0.5,
            "allow_known": rng.random() < 0.15,
+           "public_mutator": rng.random() < 0.3,
            "two_nodes": fam["pickler"] and rng.random() < 0.5}
     strata = c10_strata()
     prefix = []
@@ -174,7 +176,10 @@ def gen(seed, V, tier, index, bias=None):
             continue
         t = rng.choice(live_tables)
         r = rng.random()
-        if rng.random() < 0.08:
+        if fam["mutator"] and cfg["public_mutator"] and rng.random() < 0.12:
+            # the user customises the PUBLIC table; private tables must not follow (symmetric isolation)
+            ev = gen_mutation(rng, V, "public", pred, False)
+        elif rng.random() < 0.08:
             # an init (often a reload) in the middle of the client phase: after data was modified
             ev = ["init", rng.choice(live_tables + ["public"]), rng.choice(M.GROUPS9), rng.random() < 0.7]
         elif fam["mutator"] and r < 0.3:
@@ -320,6 +325,13 @@ def c10_strata():
                                          "crystal_structure", "magnetic_ff", "activation"]]
     for g in E.LAZY_GROUPS:
         out.append(two + [["mutate_walk", "T1", g, 3, "instance"]])
+    # symmetric isolation: the public table is customised after / before a private table is built
+    for target, atom in (("_mass", [1, 0, 0]), ("_density", [26, 0, 0]), ("crystal_structure_inplace", [26, 0, 0]),
+                         ("neutron_field", [26, 0, 0]), ("xray_sftable_inplace", [26, 0, 0]),
+                         ("magnetic_ff_field", [26, 0, 0]), ("activation_row_field", [27, 59, 0]),
+                         ("covalent_radius", [26, 0, 0]), ("K_alpha", [29, 0, 0])):
+        out.append(full + [["mutate", "public", atom, target]])
+        out.append([["mutate", "public", atom, target]] + full)
     # stale derived state: modify T1, reload one group of T1, then build T2 from scratch
     for target, atom in (("_density", [26, 0, 0]), ("_mass", [28, 0, 0])):
         for g in M.GROUPS9:
